@@ -23,6 +23,10 @@ def logCmd : List String → Option String
     match ofHex file with
     | some f => let rs := readAll realCfg f; some s!"{rs.length} {joinHex rs}"
     | none => none
+  | ["log.readalls", file] =>
+    match ofHex file with
+    | some f => let r := readAllS realCfg f; some s!"{if r.2 then "clean" else "dirty"} {r.1.length} {joinHex r.1}"
+    | none => none
   | ["log.crc", d] =>
     match ofHex d with
     | some f => some s!"{crc32c f} {maskCrc (crc32c f)}"
